@@ -24,10 +24,10 @@ Proof. intros; subst; simpl; auto. Qed.
 Definition emb_shape (t : tbl embent) : list bool := map (fun o => match o with Some _ => true | None => false end) t.
 Record core := mkCore { k_shut : bool; k_qs : tbl question; k_qgen : idgen; k_ans : list (Z * answer);
                         k_exp : tbl expent; k_egen : idgen; k_emb : list bool; k_mgen : idgen;
-                        k_allocs : Z; k_queue : list Z }.
+                        k_allocs : Z; k_queue : list Z; k_sent : list (Z * Z); k_rel : list (Z * Z) }.
 Definition core_of (s : state) : core :=
   mkCore (s_shut s) (s_qs s) (s_qgen s) (s_ans s) (s_exp s) (s_egen s) (emb_shape (s_emb s)) (s_mgen s)
-         (s_allocs s) (s_queue s).
+         (s_allocs s) (s_queue s) (s_sent s) (s_rel s).
 
 Lemma emb_shape_replace : forall t n v,
   (exists w, nth_error t n = Some (Some w)) -> emb_shape (replace_nth n (Some v) t) = emb_shape t.
